@@ -202,6 +202,7 @@ public:
   sdkmet::AggregationTemporality GetAggregationTemporality(
       sdkmet::InstrumentType) const noexcept override
   {
+    hz::HarnessCode hc_;
     // asked by every storage while it is collected, i.e. inside the serialised section
     ev(E_COL_INSIDE, 0, 0);
     return temporality_ ? sdkmet::AggregationTemporality::kCumulative
@@ -209,8 +210,8 @@ public:
   }
 
 private:
-  bool OnForceFlush(std::chrono::microseconds) noexcept override { return true; }
-  bool OnShutDown(std::chrono::microseconds) noexcept override { return true; }
+  bool OnForceFlush(std::chrono::microseconds) noexcept override { hz::HarnessCode hc_; return true; }
+  bool OnShutDown(std::chrono::microseconds) noexcept override { hz::HarnessCode hc_; return true; }
   int temporality_;
 };
 class DirectCollector final : public sdkmet::CollectorHandle
@@ -219,6 +220,7 @@ public:
   explicit DirectCollector(int t) : t_(t) {}
   sdkmet::AggregationTemporality GetAggregationTemporality(sdkmet::InstrumentType) noexcept override
   {
+    hz::HarnessCode hc_;
     // what MetricCollector does for a synchronous gauge: delta is not supported
     (void)t_;
     return sdkmet::AggregationTemporality::kCumulative;
@@ -813,6 +815,7 @@ void check(const Case &c, const vsim::RunResult &)
 void generate(const std::string &, Rng &wl, Rng &fl, Case &c)
 {
   vsim::SimKnobs sk;
+  sk.allow_call_points = true;
   sk.allow_stall        = true;
   sk.allow_coarse_clock = false;
   sk.faults_on          = fl.chance(0.5);
